@@ -42,7 +42,17 @@ var (
 func sanitizeB(sc *Scenario) *Scenario {
 	c := clone(sc)
 	for i := range c.Chans {
-		c.Chans[i].Elem = 8
+		// element kinds of the compiled program: 0 struct{}, 4 int32, 8 int, 16 string, 24 [3]int64
+		switch c.Chans[i].Elem {
+		case 0, 8, 24:
+		case 1:
+			c.Chans[i].Elem = 4
+		default:
+			c.Chans[i].Elem = 16
+		}
+		if (i+len(c.Tasks))%5 == 0 {
+			c.Chans[i].Elem = 16
+		}
 	}
 	for _, ops := range c.Tasks {
 		for _, op := range ops {
@@ -87,11 +97,91 @@ func sanitizeB(sc *Scenario) *Scenario {
 	return c
 }
 
+func elemType(es int) string {
+	switch es {
+	case 0:
+		return "struct{}"
+	case 4:
+		return "int32"
+	case 16:
+		return "string"
+	case 24:
+		return "[3]int64"
+	}
+	return "int"
+}
+
+// mk renders the Go expression for value v of a channel's element type; dec the
+// expression that turns a received element back into the value id (0 = zero value, -1 = damaged).
+func mk(es, v int) string {
+	switch es {
+	case 0:
+		return "struct{}{}"
+	case 4:
+		return fmt.Sprintf("int32(%d)", v)
+	case 16:
+		return fmt.Sprintf("itos(%d)", v)
+	case 24:
+		return fmt.Sprintf("[3]int64{%d, %d ^ 0x5a5a, ^%d}", v, v, v)
+	}
+	return strconv.Itoa(v)
+}
+
+func dec(es int, x string) string {
+	switch es {
+	case 0:
+		return "0"
+	case 4:
+		return "int(" + x + ")"
+	case 16:
+		return "stoi(" + x + ")"
+	case 24:
+		return "dec3(" + x + ")"
+	}
+	return x
+}
+
+const progHelpers = `
+func itos(n int) string {
+	s := "v"
+	d := ""
+	for n > 0 {
+		d = string(rune('0'+n%10)) + d
+		n /= 10
+	}
+	return s + d + "-padding-to-make-it-longer"
+}
+
+func stoi(s string) int {
+	if s == "" {
+		return 0
+	}
+	if len(s) < 2 || s[0] != 'v' {
+		return -1
+	}
+	n := 0
+	for i := 1; i < len(s) && s[i] >= '0' && s[i] <= '9'; i++ {
+		n = n*10 + int(s[i]-'0')
+	}
+	return n
+}
+
+func dec3(a [3]int64) int {
+	if a[0] == 0 && a[1] == 0 && a[2] == 0 {
+		return 0
+	}
+	if a[1] != a[0]^0x5a5a || a[2] != ^a[0] {
+		return -1
+	}
+	return int(a[0])
+}
+`
+
 func genProgram(sc *Scenario) string {
 	var sb strings.Builder
-	sb.WriteString("package main\n\nvar nilch chan int\n\nfunc main() {\n")
+	sb.WriteString("package main\n\nvar nilch chan int\n" + progHelpers + "\nfunc main() {\n")
 	for i, c := range sc.Chans {
-		fmt.Fprintf(&sb, "\tc%d := make(chan int, %d)\n", i, c.Cap)
+		fmt.Fprintf(&sb, "\tc%d := make(chan %s, %d)\n", i, elemType(c.Elem), c.Cap)
 	}
 	for t, ops := range sc.Tasks {
 		sb.WriteString("\tgo func() {\n")
@@ -100,11 +190,18 @@ func genProgram(sc *Scenario) string {
 			ret := func(ok, val, sel string) string {
 				return fmt.Sprintf("println(\"E\", %d, %d, \"ret\", %s, %s, %s)", t, i, ok, val, sel)
 			}
+			form := (t*7 + i*3 + len(ops)) % 3 // receive form: comma-ok, plain, (select only) value discarded
 			switch op.K {
 			case "send":
-				fmt.Fprintf(&sb, "\t\tc%d <- %d\n\t\t%s\n", op.Ch, op.Val, ret("true", "0", "-2"))
+				fmt.Fprintf(&sb, "\t\tc%d <- %s\n\t\t%s\n", op.Ch, mk(sc.Chans[op.Ch].Elem, op.Val), ret("true", "0", "-2"))
 			case "recv":
-				fmt.Fprintf(&sb, "\t\t{\n\t\t\tv, ok := <-c%d\n\t\t\t%s\n\t\t}\n", op.Ch, ret("ok", "v", "-2"))
+				es := sc.Chans[op.Ch].Elem
+				if form == 1 && es != 0 {
+					// plain receive: ok is what the value tells (sent values are never zero)
+					fmt.Fprintf(&sb, "\t\t{\n\t\t\tv := <-c%d\n\t\t\t%s\n\t\t}\n", op.Ch, ret(dec(es, "v")+" != 0", dec(es, "v"), "-2"))
+				} else {
+					fmt.Fprintf(&sb, "\t\t{\n\t\t\tv, ok := <-c%d\n\t\t\t_ = v\n\t\t\t%s\n\t\t}\n", op.Ch, ret("ok", dec(es, "v"), "-2"))
+				}
 			case "close":
 				fmt.Fprintf(&sb, "\t\tclose(c%d)\n\t\t%s\n", op.Ch, ret("true", "0", "-2"))
 			case "len":
@@ -114,14 +211,16 @@ func genProgram(sc *Scenario) string {
 			case "select":
 				sb.WriteString("\t\tselect {\n")
 				for k, cs := range op.Cases {
-					name := "nilch"
+					name, es := "nilch", 8
 					if cs.Ch >= 0 {
-						name = fmt.Sprintf("c%d", cs.Ch)
+						name, es = fmt.Sprintf("c%d", cs.Ch), sc.Chans[cs.Ch].Elem
 					}
 					if cs.Send {
-						fmt.Fprintf(&sb, "\t\tcase %s <- %d:\n\t\t\t%s\n", name, cs.Val, ret("true", "0", strconv.Itoa(k)))
+						fmt.Fprintf(&sb, "\t\tcase %s <- %s:\n\t\t\t%s\n", name, mk(es, cs.Val), ret("true", "0", strconv.Itoa(k)))
+					} else if (form+k)%3 == 1 && es != 0 {
+						fmt.Fprintf(&sb, "\t\tcase v := <-%s:\n\t\t\t%s\n", name, ret(dec(es, "v")+" != 0", dec(es, "v"), strconv.Itoa(k)))
 					} else {
-						fmt.Fprintf(&sb, "\t\tcase v, ok := <-%s:\n\t\t\t%s\n", name, ret("ok", "v", strconv.Itoa(k)))
+						fmt.Fprintf(&sb, "\t\tcase v, ok := <-%s:\n\t\t\t_ = v\n\t\t\t%s\n", name, ret("ok", dec(es, "v"), strconv.Itoa(k)))
 					}
 				}
 				if op.Default {
